@@ -5,7 +5,7 @@ Line-protocol driver for C27.
 * tie `counter` (D): `init <side>` / `recv n` / `sent n` / `validate` / `maxsend` / `blocked`
   on the credit model; prints the credit (and ghost totals) after each op.
 * tie `wire` (V): `<action> => <events>`; events separated by `;`:
-  `recv a n none|conn|new h` · `send a n conn|ep c` · `validated` · `cred c|-`.
+  `recv a n none|conn|new h` · `send a n conn|ep c k` · `validated` · `cred c|-`.
   Prints `ok` or `reject <why>`; `reset …` starts a new case.
 -/
 open NetVerif.Driver NetVerif.Model.AntiAmp
@@ -26,14 +26,15 @@ def parseEv : List String → Option Ev
     let r ← (match r with | "none" => some Route.none | "conn" => some Route.conn | "new" => some Route.new | _ => none)
     let h ← (match h with | "0" => some false | "1" => some true | _ => none)
     pure (.recv a n r h)
-  | ["send", a, n, o, c] => do
+  | ["send", a, n, o, c, k] => do
     let a ← parseNat a
     let n ← parseInt n
+    let k ← parseInt k
     match o with
     | "conn" => do
       let c ← parseCredit c
-      pure (.send a n true c)
-    | "ep" => if c == "-" then pure (.send a n false 0) else none
+      pure (.send a n true c k)
+    | "ep" => if c == "-" then pure (.send a n false 0 k) else none
     | _ => none
   | ["validated"] => some .validated
   | ["cred", c] => if c == "-" then some (.cred none) else (parseCredit c).map (fun c => .cred (some c))
